@@ -262,6 +262,17 @@ def explore(rng, transport, profile, flavor, runner_cls, max_cmds=70):
                 bad = rng.choice(['<data><out>show version\x1b[0m done\x08</out></data>', '<data><a><b></a></data>', '<data>\x00</data>', '<data>&nbsp;</data>'])
                 srv.push('<rpc-reply message-id="%s" xmlns="%s">%s</rpc-reply>' % (mid, BASE_NS, bad))
                 info['bad_reply_body'] = info.get('bad_reply_body', 0) + 1
+            elif pend and flavor == 'odd' and rng.random() < (0.35 if len(pend) == 1 else 0.1):
+                # while requests are outstanding (often exactly one): an <rpc-reply> that is NOT an answer to any of them - without
+                # message-id, with an id nobody used, or a second copy of a reply that was delivered already
+                k = rng.random()
+                if k < 0.35 or not srv.answered:
+                    srv.push(ODD[1])
+                elif k < 0.6:
+                    srv.push(ODD[2])
+                else:
+                    srv.push(reply_text(rng, rng.choice(srv.answered), len(srv.answered)))
+                info['stray_reply'] = info.get('stray_reply', 0) + 1
             elif pend and r < 0.6:
                 mid = rng.choice(pend)
                 srv.answered.append(mid)
